@@ -1,10 +1,149 @@
 /-
-  Property C02 (work in progress: placeholder, replaced below by the full development)
--/
-import FcProofs.Lemmas.LexsortSeg
-namespace Fc
+  Property C02 — mesh comparison is invariant under point/cell reordering (no false FAIL);
+  sorting is canonical.  Only property theorems live here; helper lemmas are in
+  FcProofs/Lemmas/Lexsort*.lean.
 
-theorem C02_segment_sort_perm {srt} (h : IsSort srt) (fuel j : Nat) (l : List Row) :
-    (lexFrom srt fuel j l).Perm l := lexFrom_perm h fuel j l
+  Model:  FcModel/Lexsort.lean (`fuzzyLexSortBy`, `lexLoop`, `walkRuns`, `isclose`, `IsArgsort`),
+          FcModel/SortPoints.lean (`sortPointsItems`, tie break, `sortCells`, index-map application),
+          FcModel/Ladder.lean (`ladder`).
+  Spec:   FcModel/Spec/C02.lean (`Sep` = `sepCol` + `boundsOk`, `clusterKey`, canonical orders).
+
+  Every theorem quantifies over EVERY `argsort` routine satisfying `IsArgsort` (a permutation of
+  `range n` that sorts the keys; ties arbitrary) — numpy's unstable introsort included.
+-/
+import FcProofs.Lemmas.LexsortCanon
+namespace Fc
+open Spec
+
+/-! ## the sorting routine -/
+
+/-- The `argsort` the driver executes (stable merge sort on (position, key) pairs) and its
+    reversed-tie variant are instances of the assumption `IsArgsort`. -/
+theorem C02_argsort_instances : IsArgsort argsortStable ∧ IsArgsort argsortRevTies :=
+  ⟨isArgsort_stable, isArgsort_revTies⟩
+
+/-- Fancy indexing with ANY argsort is a sorter on items: a permutation, sorted by the key. -/
+theorem C02_argsort_sorter {α : Type} {as : List Int → List Nat} (h : IsArgsort as) (k : α → Int)
+    (l : List α) :
+    (sorterOf as k l).Perm l ∧ (sorterOf as k l).Pairwise (fun a b => k a ≤ k b) :=
+  ⟨sorterOf_perm h k l, sorterOf_sorted h k l⟩
+
+/-! ## (iii) raw floating-point values vs cluster keys -/
+
+/-- Under `Sep` (`sepCol A B vals`, `2A ≤ B`, float side conditions `boundsOk`, magnitudes `≤ M`)
+    BOTH closeness tests of the code — `np.isclose` (asymmetric in its second argument) and
+    `fuzzy_equal` — coincide on the occurring values with "same cluster key", and the cluster key
+    is monotone: fuzzy equality is an order-convex equivalence. -/
+theorem C02_sep_clusters (t : MeshTol) (A B M : Nat) (vals : List Int) (hsep : sepCol A B vals = true)
+    (hAB : 2 * A ≤ B) (hb : boundsOk t A B M = true) (hM : ∀ v ∈ vals, v.natAbs ≤ M) :
+    (∀ u ∈ vals, ∀ v ∈ vals,
+        (t.closeIs u v = true ↔ clusterKey A vals u = clusterKey A vals v) ∧
+        (t.closeFz u v = true ↔ clusterKey A vals u = clusterKey A vals v) ∧
+        (u ≤ v → clusterKey A vals u ≤ clusterKey A vals v)) := by
+  intro u hu v hv
+  have h1 := clustered_closeIs hsep hAB hb hM
+  have h2 := clustered_closeFz hsep hAB hb hM
+  refine ⟨?_, ?_, h1.mono u hu v hv⟩
+  · rw [h1.iff u hu v hv]; simp
+  · rw [h2.iff u hu v hv]; simp
+
+/-- The margins the driver uses (`A = atol/2`, `B = 4·atol`) satisfy `2A ≤ B`. -/
+theorem C02_margins (t : MeshTol) : 2 * sepA t ≤ sepB t := sepA_sepB t
+
+/-! ## (ii) the loop with the positional mask refines the segment form -/
+
+/-- `walk_adjacent_true_index_ranges` on the mask of a list of groups, followed by the in-place
+    re-sorting of every yielded range, is the same as sorting every group: the positional mask
+    (with its "+1 upper edge") encodes exactly the segments. -/
+theorem C02_mask_runs_are_segments {α : Type} (f : List α → List α) (hperm : ∀ g, (f g).Perm g)
+    (gs : List (List α)) (hne : ∀ g ∈ gs, g ≠ []) :
+    (walkRuns (maskOf gs)).foldl (applyRun f) gs.flatten = (gs.map f).flatten :=
+  foldl_applyRun_maskOf f (fun g => (hperm g).length_eq) (fun a => List.perm_singleton.mp (hperm [a])) gs hne
+
+/-- `np.logical_and(equals, dim_equals)` is splitting inside the segments (this is the F1 repair:
+    without the AND the invariant breaks at the third column). -/
+theorem C02_mask_and_is_split {α : Type} (k : α → Int) (gs : List (List α)) (hne : ∀ g ∈ gs, g ≠ []) :
+    List.zipWith (· && ·) (maskOf gs) (adjEq k gs.flatten) = maskOf (gs.flatMap (splitKey k)) :=
+  mask_and_adjEq k gs hne
+
+/-- **Refinement.** For every permutation-valued sorter and every closeness test that is equality of
+    cluster keys `K j` on the columns the loop inspects, the model of
+    `get_fuzzy_lex_sorting_index_map` (loop over the columns with a positional run mask) IS the
+    segment form (sort by column j, split where the key changes, recurse with column j+1). -/
+theorem C02_lexsort_refines_segments {α : Type} {P : α → Prop} {srt : (α → Int) → List α → List α}
+    (hs : ∀ k l, (srt k l).Perm l) (close : Int → Int → Bool) (key K : Nat → α → Int) (ncols : Nat)
+    (l : List α) (hn : 1 ≤ ncols) (hl : l ≠ []) (hP : ∀ a ∈ l, P a)
+    (hcl : ∀ j, j < ncols - 1 → ∀ a b, P a → P b → close (key j a) (key j b) = (K j a == K j b)) :
+    fuzzyLexSortBy srt close key ncols l = segSort (fun j => srt (key j)) K ncols 0 l :=
+  fuzzyLexSortBy_eq_segSort (P := P) hs close key K ncols l hn hl hP hcl
+
+/-! ## the fuzzy lexsort sorts by cluster keys, for every number of columns -/
+
+/-- **C02_lexsort_sorted (full; the ≤ 2-column restriction of the pinned code is gone).**
+    For every `argsort`, every number of columns `ncols ≥ 1` and every array of rows whose columns
+    satisfy `Sep`: the index map returned by the model of `get_fuzzy_lex_sorting_index_map` is a
+    permutation of `range n`, and the rows taken in that order are lexicographically sorted by the
+    cluster keys of ALL columns. -/
+theorem C02_lexsort_sorted {as : List Int → List Nat} (has : IsArgsort as) (t : MeshTol) (A B M : Nat)
+    (ncols : Nat) (rows : List (List Int)) (hn : 1 ≤ ncols)
+    (hsep : SepCols t A B M (fun j (it : Nat × List Int) => it.2.getD j 0) ncols
+              ((List.range rows.length).zip rows)) :
+    (fuzzyLexSortIdx as t.closeIs ncols rows).Perm (List.range rows.length) ∧
+    ((fuzzyLexSortBy (fun k l => sorterOf as k l) t.closeIs (fun j (it : Nat × List Int) => it.2.getD j 0) ncols
+        ((List.range rows.length).zip rows))).Pairwise
+      (lexLE (colKey A (fun j (it : Nat × List Int) => it.2.getD j 0) ((List.range rows.length).zip rows)) ncols 0) := by
+  obtain ⟨_, hp, hs⟩ := fuzzyLexSortBy_spec (isSort_sorterOf has) hn hsep
+  refine ⟨?_, hs⟩
+  unfold fuzzyLexSortIdx
+  have := hp.map (·.1)
+  rwa [List.map_fst_zip (by simp)] at this
+
+/-! ## (i) canonicity -/
+
+/-- **Canonicity, key level (noise allowed).** Two item lists — possibly of different types, with
+    different raw values, sorted by two different `argsort` routines — each satisfying `Sep`: if
+    their cluster-key vectors agree up to permutation, the two sorted sequences have pointwise
+    equal cluster-key vectors. -/
+theorem C02_lexsort_canonical_keys {α β : Type} {as1 as2 : List Int → List Nat} (h1 : IsArgsort as1)
+    (h2 : IsArgsort as2) (t1 t2 : MeshTol) (A1 B1 M1 A2 B2 M2 ncols : Nat) (hn : 1 ≤ ncols)
+    (key1 : Nat → α → Int) (key2 : Nat → β → Int) (l1 : List α) (l2 : List β)
+    (hs1 : SepCols t1 A1 B1 M1 key1 ncols l1) (hs2 : SepCols t2 A2 B2 M2 key2 ncols l2)
+    (K1 : Nat → α → Int) (K2 : Nat → β → Int)
+    (hK1 : K1 = colKey A1 key1 l1) (hK2 : K2 = colKey A2 key2 l2)
+    (hperm : (l1.map (kvec K1 ncols 0)).Perm (l2.map (kvec K2 ncols 0))) :
+    (fuzzyLexSortBy (fun k l => sorterOf as1 k l) t1.closeIs key1 ncols l1).map (kvec K1 ncols 0) =
+    (fuzzyLexSortBy (fun k l => sorterOf as2 k l) t2.closeIs key2 ncols l2).map (kvec K2 ncols 0) := by
+  subst hK1 hK2
+  obtain ⟨_, hp1, hso1⟩ := fuzzyLexSortBy_spec (isSort_sorterOf h1) hn hs1
+  obtain ⟨_, hp2, hso2⟩ := fuzzyLexSortBy_spec (isSort_sorterOf h2) hn hs2
+  exact lexsorted_keys_unique _ _ ncols hso1 hso2
+    (((hp1.map _).trans hperm).trans (hp2.map _).symm)
+
+/-- **Canonicity, items (noise-free).** Two lists that are permutations of each other (the same
+    rows stored in a different order), with pairwise distinct cluster-key vectors, are sorted into
+    the SAME list — whatever `argsort` routine either side uses. -/
+theorem C02_lexsort_canonical {α : Type} {as1 as2 : List Int → List Nat} (h1 : IsArgsort as1)
+    (h2 : IsArgsort as2) (t : MeshTol) (A B M ncols : Nat) (hn : 1 ≤ ncols) (key : Nat → α → Int)
+    (l1 l2 : List α) (hperm : l1.Perm l2) (hs1 : SepCols t A B M key ncols l1)
+    (hdist : ∀ a ∈ l1, ∀ b ∈ l1, kvec (colKey A key l1) ncols 0 a = kvec (colKey A key l1) ncols 0 b → a = b) :
+    fuzzyLexSortBy (fun k l => sorterOf as1 k l) t.closeIs key ncols l1 =
+    fuzzyLexSortBy (fun k l => sorterOf as2 k l) t.closeIs key ncols l2 := by
+  have hs2 : SepCols t A B M key ncols l2 :=
+    ⟨hs1.hAB, hs1.bounds,
+     fun j hj => by
+       have := hs1.sep j hj
+       rw [sepCol_iff] at this ⊢
+       intro u hu v hv
+       exact this u ((hperm.map _).mem_iff.mpr hu) v ((hperm.map _).mem_iff.mpr hv),
+     fun j hj a ha => hs1.mag j hj a (hperm.mem_iff.mpr ha)⟩
+  have hK : colKey A key l2 = colKey A key l1 := by
+    funext j a
+    exact clusterKey_congr (fun w => ((hperm.map (key j)).mem_iff).symm)
+  obtain ⟨_, hp1, hso1⟩ := fuzzyLexSortBy_spec (isSort_sorterOf h1) hn hs1
+  obtain ⟨_, hp2, hso2⟩ := fuzzyLexSortBy_spec (isSort_sorterOf h2) hn hs2
+  rw [hK] at hso2
+  refine lexsorted_unique (colKey A key l1) ncols hso1 hso2 ((hp1.trans hperm).trans hp2.symm) ?_
+  intro a ha b hb
+  exact hdist a (hp1.mem_iff.mp ha) b (hp1.mem_iff.mp hb)
 
 end Fc
